@@ -235,4 +235,28 @@ example :
 example : WFL (L.new [1, 2, 3]) ∧ ¬ WFL (⟨5, .nil⟩ : LSeq Int) := by
   constructor <;> simp [WFL, L.new, L.elems, L.newLoop, Cells.toList]
 
+/-- left fold from the identity of an associative operation peels off the first element -/
+theorem foldl_cons_monoid (c : A → A → A) (e : A) (assoc : ∀ x y z, c (c x y) z = c x (c y z))
+    (idl : ∀ x, c e x = x) (idr : ∀ x, c x e = x) (x : A) (l : List A) :
+    (x :: l).foldl c e = c x (l.foldl c e) := by
+  have gen : ∀ (l : List A) (a : A), l.foldl c a = c a (l.foldl c e) := by
+    intro l
+    induction l with
+    | nil => intro a; simp [idr]
+    | cons y ys ih => intro a; simp only [List.foldl_cons]; rw [ih (c a y), ih (c e y), idl, assoc]
+  simp only [List.foldl_cons, idl]
+  exact gen l x
+
+/-- For a lawful monoid, `Fold` over `Cons(x, s)` is `Combine(x, Fold(s))` on the list implementation: the structural
+recursion a caller expects from a fold, derived from the loop the code runs. -/
+theorem fold_cons_list (M : Monoid A) (assoc : ∀ x y z, M.combine (M.combine x y) z = M.combine x (M.combine y z))
+    (idl : ∀ x, M.combine M.empty x = x) (idr : ∀ x, M.combine x M.empty = x)
+    (x : A) (s : LSeq A) (w : WFL s) :
+    ∃ r, fold L.view M (L.length s).toNat s = .ok r ∧
+      fold L.view M (L.length (L.cons x s)).toNat (L.cons x s) = .ok (M.combine x r) := by
+  have w' := cons_WFL x s w
+  refine ⟨_, fold_left_list M s w _ (Nat.le_refl _), ?_⟩
+  rw [fold_left_list M (L.cons x s) w' _ (Nat.le_refl _), (list_length_cons x s).2,
+    foldl_cons_monoid M.combine M.empty assoc idl idr]
+
 end Golem.Props.C19
